@@ -234,6 +234,30 @@ impl<'a, R> Drop for DepthGuard<'a, R> {
     }
 }
 
+/// Maps an offset in `String::from_utf8_lossy(json)` back to the offset in `json`: every maximal
+/// invalid sequence of the input became one 3-byte U+FFFD in the repaired text.
+fn lossy_offset_to_origin(json: &[u8], lossy_off: usize) -> usize {
+    let (mut origin, mut lossy) = (0usize, 0usize);
+    while origin < json.len() {
+        let (valid, invalid) = match std::str::from_utf8(&json[origin..]) {
+            Ok(s) => (s.len(), 0),
+            Err(e) => (
+                e.valid_up_to(),
+                e.error_len().unwrap_or(json.len() - origin - e.valid_up_to()),
+            ),
+        };
+        if lossy + valid >= lossy_off {
+            return origin + (lossy_off - lossy);
+        }
+        origin += valid + invalid;
+        lossy += valid + if invalid != 0 { 3 } else { 0 };
+        if lossy >= lossy_off {
+            return origin;
+        }
+    }
+    origin
+}
+
 fn visit_number<'de, V>(num: &ParserNumber, visitor: V) -> Result<V::Value>
 where
     V: de::Visitor<'de>,
@@ -373,7 +397,9 @@ impl<'de, R: Reader<'de>> Deserializer<R> {
             let n = if cfg.utf8_lossy && self.parser.read.next_invalid_utf8() != usize::MAX {
                 // repr the invalid utf8, not need to care about the invalid UTF8 char in non-string
                 // parts, it will cause errors when parsing.
-                val.parse_with_padding(String::from_utf8_lossy(json).as_bytes(), cfg)?
+                let n = val.parse_with_padding(String::from_utf8_lossy(json).as_bytes(), cfg)?;
+                // `n` counts bytes of the repaired text: map it back to the input
+                lossy_offset_to_origin(json, n)
             } else {
                 val.parse_with_padding(json, cfg)?
             };
